@@ -321,6 +321,9 @@ type sample struct {
 }
 
 func Run(cfg harness.Config, idx int, tp *tape.Tape) harness.Result {
+	if cfg.Property == "C07" {
+		return runC07(cfg, idx, tp)
+	}
 	var res harness.Result
 	c := loadCorpus()
 	if len(c) == 0 {
